@@ -260,6 +260,7 @@ func HC01_Step() {
 	x.check()
 	x.inv()
 	x.checkQueries(true)
+	x.checkUncheckedAPI()
 	vReach("end")
 }
 
